@@ -872,7 +872,7 @@ def gen_tdm1_case(rng):
     tm = int(rng.integers(2, 9))
     cls = str(rng.choice(["exact", "exact", "exact", "literal-changed", "out-of-range", "wrong-gate", "wrong-modes", "too-many-bins",
                           "phase-literal-changed", "extra-gate", "boundary-values", "single-value-range", "wrong-concurrency",
-                          "wrong-spatial"]))
+                          "wrong-spatial", "gap-range", "gap-range"]))
     return {"family": "tdm1", "tm": tm, "cls": cls, "compiler": str(rng.choice(["TDM", "TD2"])), "r_lit": float(np.round(rng.uniform(0.2, 0.9), 4)),
             "bs": rng.uniform(0, TWO_PI, tm).tolist(), "r": rng.uniform(0, np.pi, tm).tolist(), "m": rng.uniform(0, TWO_PI, tm).tolist(),
             "temporal_max": int(rng.integers(tm, tm + 4)), "pass_compiler": bool(rng.random() < 0.5)}
@@ -889,6 +889,10 @@ def run_tdm1_case(case, rep, env):
     gp = {"bs": [0, [0, TWO_PI]], "r": [0, [0, np.pi], np.pi], "m": [0, [0, TWO_PI]]}
     if cls == "single-value-range":
         gp["r"] = [0, np.pi / 2, np.pi]
+    if cls == "gap-range":
+        # allowed sets with a gap: a single value plus an interval, two disjoint intervals
+        gp["r"] = [0, [1.0, 2.0]]
+        gp["bs"] = [[0, 1.0], [2.0, 3.0]]
     spec = {"target": comp, "layout": layout, "modes": {"concurrent": 3 if cls == "wrong-concurrency" else 2,
                                                         "spatial": 2 if cls == "wrong-spatial" else 1, "temporal_max": case["temporal_max"]},
             "compiler": [comp], "gate_parameters": gp}
@@ -903,10 +907,24 @@ def run_tdm1_case(case, rep, env):
         (bs, r, m)[which][0] = 7.5 if which != 1 else 3.6
     if cls == "boundary-values":
         bs[0], r[0], m[0] = TWO_PI, np.pi, 0.0
+    lrng = np.random.default_rng([tm, int(1e6 * case["r_lit"])])
     if cls == "single-value-range":
-        r = [float(np.random.default_rng(tm).choice([0.0, np.pi / 2, np.pi])) for _ in r]
+        r = [float(x) for x in lrng.choice([0.0, np.pi / 2, np.pi], len(r))]
+        if len(r) >= 3:
+            r[0], r[-1] = 0.0, float(np.pi)
         if tm % 2:
-            r[-1] = 1.0  # not one of the three allowed values
+            r[len(r) // 2] = 1.0  # not one of the three allowed values, and neither the smallest nor the largest entry
+    if cls == "gap-range":
+        r = [float(x) for x in lrng.choice([0.0, 1.0, 1.4, 2.0], len(r))]
+        bs = [float(x) for x in lrng.choice([0.0, 0.6, 1.0, 2.0, 2.5, 3.0], len(bs))]
+        if len(r) >= 3:
+            r[0], r[-1], bs[0], bs[-1] = 0.0, 2.0, 0.0, 3.0
+            which = int(lrng.integers(3))
+            if which == 0:
+                r[int(lrng.integers(1, len(r) - 1))] = 0.5   # inside the gap, between the smallest and the largest entry
+            elif which == 1:
+                bs[int(lrng.integers(1, len(bs) - 1))] = 1.5
+            # which == 2: every entry allowed
     if cls == "too-many-bins":
         extra = case["temporal_max"] - tm + 1
         bs, r, m = bs + [0.1] * extra, r + [0.1] * extra, m + [0.1] * extra
